@@ -2,6 +2,7 @@ package builder
 
 import (
 	"fmt"
+	"math/big"
 
 	"github.com/dave/jennifer/jen"
 	"github.com/jmattheis/goverter/config"
@@ -67,7 +68,7 @@ func (*Enum) Build(gen Generator, ctx *MethodContext, sourceID *xtype.JenID, sou
 			})
 		}
 
-		sourceValue := sourceEnum.Members[sourceName]
+		sourceValue := enumValueKey(sourceEnum.Members[sourceName])
 		if previous, ok := sourceTargetMapping[sourceValue]; ok {
 			if enumTargetMismatches(previous, targetEnum, targetName) {
 				return nil, nil, enumTargetMismatchError(targetEnum, sourceName, targetName, previous, sourceValue).Lift(&Path{
@@ -171,7 +172,7 @@ func executeTransformers(transformers []config.ConfiguredTransformer, source, ta
 
 func enumTargetMismatches(previous enumMapping, targetEnum *xtype.Enum, targetName string) bool {
 	if !config.IsEnumAction(targetName) && !config.IsEnumAction(previous.Target) {
-		return targetEnum.Members[previous.Target] != targetEnum.Members[targetName]
+		return enumValueKey(targetEnum.Members[previous.Target]) != enumValueKey(targetEnum.Members[targetName])
 	}
 	return targetName != previous.Target
 }
@@ -197,6 +198,25 @@ func fmtEnumValue(targetEnum *xtype.Enum, targetName string) string {
 		return fmt.Sprintf("%s(action)", targetName)
 	}
 	return fmt.Sprintf("%s(%v)", targetName, targetEnum.Members[targetName])
+}
+
+// enumValueKey returns a comparable representation of a constant value. constant.Val returns pointers
+// (*big.Int, *big.Rat, *big.Float) for values that do not fit into int64 or are floats; these must be
+// compared by their exact value and not by identity.
+func enumValueKey(value interface{}) interface{} {
+	switch v := value.(type) {
+	case *big.Int:
+		return "int:" + v.String()
+	case *big.Rat:
+		return "rat:" + v.RatString()
+	case *big.Float:
+		if r, _ := v.Rat(nil); r != nil {
+			return "rat:" + r.RatString()
+		}
+		return "float:" + v.Text('p', 0)
+	default:
+		return value
+	}
 }
 
 type enumMapping struct {
